@@ -28,12 +28,12 @@ ASSUMPTIONS = [
     "operations whose arguments contain the receiver or one of its ancestors are not offered (they build a cycle; replace_with(ancestor) does not terminate)",
     "a state in which one node object sits at two positions is pruned, not judged (excluded by the statement)",
 ]
-DEPTH = {"quick": 4, "thorough": 5}
+DEPTH = {"quick": 5, "thorough": 5}
 
 
 def plan(tier, seed):
     cfgs = [{"depth": DEPTH[tier], "universe": "full", "procs": 16, "label": "full universe", "pid": PID, "mode": MODE}]
-    if tier == "thorough-extended":
+    if tier == "thorough-extended":  # not registered: depth 6 on the 2-class universe takes 15 min and adds 0.8 M violating instances
         cfgs.append({"depth": DEPTH[tier] + 1, "universe": "small", "procs": 16, "label": "2-class universe, one more step", "pid": PID, "mode": MODE,
                      "max_states": 400000})
     return cfgs
